@@ -135,7 +135,21 @@ pub fn guess_and_validate(len: usize, hb: bool, nthreads: usize) {
                         racy: kani::any(),
                     };
                     kani::assume(e.ord <= 4 && (e.op as usize) < 4);
-                    kani::assume(e.vc[0] as usize <= 2 * M && e.vc[1] as usize <= 2 * M && e.vc[2] as usize <= 2 * M && e.vc[3] as usize <= 2 * M);
+                    {
+                        let mut x = 0;
+                        while x < T {
+                            if x < VH_TN && hb {
+                                kani::assume(e.vc[x] as usize <= 2 * M);
+                            } else {
+                                // unused threads / no happens-before analysis: no free bits
+                                kani::assume(e.vc[x] == 0 && e.lr[x] == 0 && e.li[x] == 0);
+                            }
+                            x += 1;
+                        }
+                        if !hb {
+                            kani::assume(!e.racy);
+                        }
+                    }
                     kani::assume((e.ts as usize) < total_bound());
                     kani::assume((e.loc as usize) < NLOC);
                     kani::assume(e.kind <= K_ITER);
